@@ -212,6 +212,10 @@ def lower_socket(trace, enc_of=None, blockers=()):
             out.append({"e": "block", "t": t})
         elif e == "release":
             out.append({"e": "release", "t": t})
+        elif e == "paused":          # the peer stopped reading: drain() does not return
+            out.append({"e": "stall", "t": t, "c": ev["c"]})
+        elif e == "resumed":
+            out.append({"e": "unstall", "t": t, "c": ev["c"], "ended": ev.get("why") == "ended"})
     return out
 
 
